@@ -52,7 +52,7 @@ class C01(L1Prop):
             "every client's chain through get_child_version at the end and at interior points; non-trivial = "
             ">=3 accepted versions and >=1 rejected/declined request; distinct by hash of the concrete op lines")
     def cases(self, rng, tier):
-        n, length = sizes(tier, (120, 40), (1500, 160))
+        n, length = sizes(tier, (360, 40), (1500, 160))
         out = []
         for k in range(n):
             adv = k % 3 == 0
@@ -66,7 +66,7 @@ class C01(L1Prop):
             out.append(Case(f"c01-{k}", ops))
         # histories in which storage calls fail now and then (the failed request is retried): what was
         # never accepted must not become part of the chain, what was accepted must stay walkable
-        for k in range(sizes(tier, 16, 200)):
+        for k in range(sizes(tier, 40, 200)):
             ops = ["ensure 1"]
             for i in range(rng.randint(4, 12)):
                 par = ("nil" if k % 2 else "fresh") if i == 0 else "latest:1"
@@ -235,7 +235,7 @@ class C02(L1Prop):
             "of the state, with a complete dump of all clients before and after; non-trivial = target client has "
             ">=1 version before the request; distinct by hash of concrete ops")
     def cases(self, rng, tier):
-        nstates = sizes(tier, 40, 500)
+        nstates = sizes(tier, 100, 500)
         out = []
         for k in range(nstates):
             r2 = random.Random(rng.getrandbits(64))
@@ -252,7 +252,7 @@ class C02(L1Prop):
                 out.append(Case(f"c02-{k}-{ci}", ops, {"target": len(ops) - 2}))
         # the HTTP entry point: every class of parent, plus the retransmission of an earlier accepted
         # request (same stale parent, byte-identical payload) which must be a conflict like any other
-        nh = sizes(tier, 12, 150)
+        nh = sizes(tier, 30, 150)
         for k in range(nh):
             r2 = random.Random(rng.getrandbits(64))
             c, o = 1, 2
@@ -319,7 +319,7 @@ class C07(L1Prop):
             "requests, backdating, reopen) every previously accepted version is re-read by asking for the child of "
             "its parent; non-trivial = some version re-read >=3 times across >=2 later operation kinds")
     def cases(self, rng, tier):
-        n, length = sizes(tier, (80, 30), (1200, 120))
+        n, length = sizes(tier, (240, 30), (1200, 120))
         out = []
         for k in range(n):
             nc = rng.choice([1, 2, 3])
@@ -361,7 +361,7 @@ class C08(L1Prop):
     rule = ("visited states x every class of p: GetChildVersion(p) immediately followed by AddVersion(p) on the same "
             "state (prefix replayed per class); non-trivial = client has >=2 versions; distinct by concrete ops")
     def cases(self, rng, tier):
-        nstates = sizes(tier, 40, 500)
+        nstates = sizes(tier, 100, 500)
         out = []
         for k in range(nstates):
             r2 = random.Random(rng.getrandbits(64))
@@ -495,7 +495,7 @@ class C12(L1Prop):
                         "dump 1", "http POST av hyph=latest:1 hyph=1 history b:4", "dump 1"]
             out.append(Case(f"c12-http-{k}", ops, {"cfg": [d, v], "http": True}, mode="http")); k += 1
         # counters produced by real histories, default and small targets
-        nh = sizes(tier, 30, 400)
+        nh = sizes(tier, 90, 400)
         for j in range(nh):
             d, v = rng.choice([(14, 100), (1, 3), (2, 5), (0, 1), (3, 2), (14, 7)])
             ops = [f"cfg {d} {v}"]
@@ -664,7 +664,7 @@ class C09(L1Prop):
             "a fresh real backend and compared response by response (two-run non-interference); non-trivial = the "
             "client quoted >=1 foreign id and another client was active in between")
     def cases(self, rng, tier):
-        n, length = sizes(tier, (60, 40), (900, 140))
+        n, length = sizes(tier, (200, 40), (900, 140))
         out = []
         for k in range(n):
             nc = rng.choice([2, 3, 4])
@@ -805,7 +805,7 @@ class C10(L1Prop):
                         ops += [f"av 1 latest:1 b:{n1 + i}" for i in range(kk)]
                         ops += ["dump 1", f"as 1 ver:1:{t} b:200,{t}", "dump 1", "gs 1"]
                         out.append(Case(f"c10-late-{k}", ops)); k += 1
-        nh, length = sizes(tier, (40, 60), (800, 300))
+        nh, length = sizes(tier, (120, 60), (800, 300))
         for j in range(nh):
             g = HistGen(rng, 2, False, True, False)
             ops = []
@@ -915,7 +915,7 @@ class C11(L1Prop):
             "recomputed from requests and responses by the acceptance rule; non-trivial = >=2 accepted snapshots and "
             ">=1 declined one")
     def cases(self, rng, tier):
-        n, length = sizes(tier, (80, 40), (1200, 160))
+        n, length = sizes(tier, (240, 40), (1200, 160))
         out = []
         for k in range(n):
             nc = rng.choice([1, 2, 3])
@@ -1018,7 +1018,7 @@ class C13(L1Prop):
             "responses compared across backends and rows compared with the table model; non-trivial = >=1 reopen, "
             ">=1 snapshot and >=3 versions")
     def cases(self, rng, tier):
-        n, length = sizes(tier, (100, 40), (1500, 150))
+        n, length = sizes(tier, (300, 40), (1500, 150))
         out = []
         for k in range(n):
             nc = rng.choice([1, 2, 3])
@@ -1059,7 +1059,7 @@ class C18(L1Prop):
             "and a declined AddSnapshot (declined as decided by the acceptance rule, not by observing the state) the "
             "dumps must be identical, timestamps and counters included; non-trivial = >=3 distinct non-mutating outcome kinds")
     def cases(self, rng, tier):
-        n, length = sizes(tier, (60, 30), (800, 100))
+        n, length = sizes(tier, (200, 30), (800, 100))
         out = []
         for k in range(n):
             nc = rng.choice([1, 2, 3])
